@@ -62,7 +62,7 @@ func (m *c19Sim) release(i, nkeys int) {
 
 func c19Gen(r *verifh.Rng) []verifh.Section {
 	var secs []verifh.Section
-	nsec := verifh.Scale(150, 2500)
+	nsec := verifh.Scale(150, 800)
 	for s := 0; s < nsec; s++ {
 		nkeys := r.Pick(1, 1, 1, 2, 3)
 		n := nkeys * r.Range(1, 4)
